@@ -238,3 +238,364 @@ Example ex_plus_empty_level : filter_matches_topic [97; SLASH; PLUS] [97; SLASH]
 Proof. eapply filter_match_iff_spec; reflexivity. Qed.
 Example ex_plus_not_two_levels : ~ filter_matches_topic [PLUS] [97; SLASH; 98].
 Proof. intros H. eapply filter_match_iff_spec in H; [|reflexivity]. discriminate. Qed.
+
+(* ====================================================================================
+   '$' is an ordinary character.
+   Neither the spec ([valid_filter], [matches]) nor the model (= filter.go) has a case for '$'.
+   Made explicit as an equivariance: validation and matching commute with every renaming of
+   characters that fixes '/', '+', '#' — in particular with exchanging '$' and 'a'.  So a level
+   "$x" is matched by '+', by '#', and by the literal "$x", exactly as "ax" would be, at EVERY
+   level position.  This holds at the first level too: the theorems of this file are stated for
+   ALL topic strings; for topics that START with '$' (outside the property's quantifier; MQTT
+   4.7.2 forbids a leading wildcard to match them) they say that filter.go treats the '$' like any
+   other character, e.g. "#" and "+/x" match "$SYS/x" ([dollar_first_hash], [dollar_first_plus]).
+   ==================================================================================== *)
+
+Record renaming (rho : N -> N) : Prop := {
+  rn_inj : forall a b, rho a = rho b -> a = b;
+  rn_slash : forall c, rho c = SLASH <-> c = SLASH;
+  rn_plus : forall c, rho c = PLUS <-> c = PLUS;
+  rn_hash : forall c, rho c = HASH <-> c = HASH }.
+
+Lemma map_inj (rho : N -> N) : (forall a b, rho a = rho b -> a = b) ->
+  forall a b : str, map rho a = map rho b -> a = b.
+Proof.
+  intros Hi a; induction a as [|x a IH]; intros [|y b] H; cbn [map] in H; try discriminate; [reflexivity|].
+  injection H as H1 H2. f_equal; [apply Hi; exact H1 | apply IH; exact H2].
+Qed.
+
+Lemma map_single (rho : N -> N) c : (forall x, rho x = c <-> x = c) -> forall l : str, map rho l = [c] <-> l = [c].
+Proof.
+  intros Hc l. split.
+  - destruct l as [|x [|y l]]; cbn [map]; intros H; try discriminate.
+    injection H as H. apply (proj1 (Hc x)) in H. subst; reflexivity.
+  - intros ->. cbn [map]. f_equal. apply (proj2 (Hc c)). reflexivity.
+Qed.
+
+Lemma str_eqb_rename (rho : N -> N) : (forall a b, rho a = rho b -> a = b) ->
+  forall a b, str_eqb (map rho a) (map rho b) = str_eqb a b.
+Proof.
+  intros Hi a b. destruct (str_eqb a b) eqn:E.
+  - apply str_eqb_eq in E; subst. apply str_eqb_refl.
+  - apply str_eqb_neq. apply str_eqb_neq in E. intros H. apply E. eapply map_inj; eassumption.
+Qed.
+
+Lemma eqb_rename (rho : N -> N) c : (forall x, rho x = c <-> x = c) -> forall x, N.eqb (rho x) c = N.eqb x c.
+Proof.
+  intros Hc x. destruct (N.eqb x c) eqn:E.
+  - apply N.eqb_eq in E. apply N.eqb_eq. apply (proj2 (Hc x)); exact E.
+  - apply N.eqb_neq in E. apply N.eqb_neq. intros H. apply E. apply (proj1 (Hc x)); exact H.
+Qed.
+
+Lemma split_rename (rho : N -> N) : (forall c, rho c = SLASH <-> c = SLASH) ->
+  forall s, split (map rho s) = rename_levels rho (split s).
+Proof.
+  intros Hs s; induction s as [|c r IH]; [reflexivity|].
+  cbn [map split]. rewrite (eqb_rename rho SLASH Hs). destruct (N.eqb c SLASH).
+  - rewrite IH. reflexivity.
+  - rewrite IH. destruct (split r) as [|l ls]; reflexivity.
+Qed.
+
+Lemma contains_rename (rho : N -> N) c : (forall x, rho x = c <-> x = c) ->
+  forall f, contains c (map rho f) = contains c f.
+Proof.
+  intros Hc f. unfold contains. induction f as [|x f IH]; [reflexivity|].
+  cbn [map existsb]. rewrite IH. f_equal.
+  rewrite (N.eqb_sym c (rho x)), (N.eqb_sym c x). apply eqb_rename; exact Hc.
+Qed.
+
+Lemma levels_ok_rename rho : renaming rho -> forall tf, levels_ok (rename_levels rho tf) = levels_ok tf.
+Proof.
+  intros R tf; induction tf as [|f r IH]; [reflexivity|].
+  unfold rename_levels in *. cbn [map levels_ok].
+  rewrite (contains_rename rho PLUS (rn_plus rho R)), (contains_rename rho HASH (rn_hash rho R)).
+  rewrite map_length, IH. destruct r; reflexivity.
+Qed.
+
+Theorem new_topic_filter_rename rho : renaming rho -> forall s,
+  new_topic_filter (map rho s) = option_map (rename_levels rho) (new_topic_filter s).
+Proof.
+  intros R s. destruct s as [|c r]; [reflexivity|].
+  unfold new_topic_filter. change (map rho (c :: r)) with (rho c :: map rho r).
+  change (rho c :: map rho r) with (map rho (c :: r)).
+  rewrite (split_rename rho (rn_slash rho R)), (levels_ok_rename rho R).
+  cbn [map]. destruct (levels_ok (split (c :: r))); reflexivity.
+Qed.
+
+Lemma str_eqb_single_rename (rho : N -> N) c : (forall x, rho x = c <-> x = c) ->
+  forall t, str_eqb (map rho t) [c] = str_eqb t [c].
+Proof.
+  intros Hc t. destruct (str_eqb t [c]) eqn:E.
+  - apply str_eqb_eq in E. apply str_eqb_eq. apply (proj2 (map_single rho c Hc t)). exact E.
+  - apply str_eqb_neq in E. apply str_eqb_neq. intros H. apply E. apply (proj1 (map_single rho c Hc t)). exact H.
+Qed.
+
+Theorem tf_match_rename rho : renaming rho -> forall f ts,
+  tf_match (rename_levels rho f) (rename_levels rho ts) = tf_match f ts.
+Proof.
+  intros R f; induction f as [|t f IH]; intros ts.
+  - destruct ts; reflexivity.
+  - unfold rename_levels in *. cbn [map tf_match].
+    rewrite (str_eqb_single_rename rho HASH (rn_hash rho R)).
+    destruct (str_eqb t [HASH]); [reflexivity|].
+    destruct ts as [|x ts]; [reflexivity|]. cbn [map].
+    rewrite (str_eqb_single_rename rho PLUS (rn_plus rho R)), (str_eqb_rename rho (rn_inj rho R)), IH.
+    reflexivity.
+Qed.
+
+Theorem filter_match_rename rho : renaming rho -> forall tf topic,
+  filter_match (rename_levels rho tf) (map rho topic) = filter_match tf topic.
+Proof.
+  intros R tf topic. unfold filter_match.
+  rewrite (split_rename rho (rn_slash rho R)). apply tf_match_rename; exact R.
+Qed.
+
+(* the same for the declarative relation: no hypothesis on the filter *)
+Lemma rho_fix (rho : N -> N) c : (forall x, rho x = c <-> x = c) -> rho c = c.
+Proof. intros H. apply (proj2 (H c)). reflexivity. Qed.
+
+Lemma matches_rename_fwd rho : renaming rho -> forall f ts,
+  matches f ts -> matches (rename_levels rho f) (rename_levels rho ts).
+Proof.
+  intros R f ts H. unfold rename_levels.
+  induction H as [ | ts | f x ts H IH | l f ts Hh Hp H IH ]; cbn [map].
+  - constructor.
+  - rewrite (rho_fix rho HASH (rn_hash rho R)). constructor.
+  - rewrite (rho_fix rho PLUS (rn_plus rho R)). constructor. exact IH.
+  - apply M_lit; [ | | exact IH].
+    + intros E. apply Hh. apply (proj1 (map_single rho HASH (rn_hash rho R) l)). exact E.
+    + intros E. apply Hp. apply (proj1 (map_single rho PLUS (rn_plus rho R) l)). exact E.
+Qed.
+
+Lemma matches_rename_back rho : renaming rho -> forall F T, matches F T ->
+  forall f ts, F = rename_levels rho f -> T = rename_levels rho ts -> matches f ts.
+Proof.
+  intros R F T H. unfold rename_levels.
+  induction H as [ | T | F x T H IH | l F T Hh Hp H IH ]; intros f ts EF ET.
+  - destruct f; [|discriminate]. destruct ts; [|discriminate]. constructor.
+  - destruct f as [|l [|l2 f]]; try discriminate. cbn [map] in EF. injection EF as EF.
+    symmetry in EF. apply (proj1 (map_single rho HASH (rn_hash rho R) l)) in EF. subst l. constructor.
+  - destruct f as [|l f]; [discriminate|]. destruct ts as [|y ts]; [discriminate|].
+    cbn [map] in EF, ET. injection EF as E1 E2. injection ET as E3 E4.
+    symmetry in E1. apply (proj1 (map_single rho PLUS (rn_plus rho R) l)) in E1. subst l.
+    constructor. apply IH; assumption.
+  - destruct f as [|l1 f]; [discriminate|]. destruct ts as [|y ts]; [discriminate|].
+    cbn [map] in EF, ET. injection EF as E1 E2. injection ET as E3 E4.
+    assert (l1 = y) by (apply (map_inj rho (rn_inj rho R)); congruence). subst y.
+    apply M_lit.
+    + intros E. apply Hh. subst l l1. cbn [map]. rewrite (rho_fix rho HASH (rn_hash rho R)). reflexivity.
+    + intros E. apply Hp. subst l l1. cbn [map]. rewrite (rho_fix rho PLUS (rn_plus rho R)). reflexivity.
+    + apply IH; assumption.
+Qed.
+
+Theorem matches_rename rho : renaming rho -> forall f ts,
+  matches (rename_levels rho f) (rename_levels rho ts) <-> matches f ts.
+Proof.
+  intros R f ts. split.
+  - intros H. eapply matches_rename_back; [exact R | exact H | reflexivity | reflexivity].
+  - apply matches_rename_fwd; exact R.
+Qed.
+
+Lemma swap_renaming a b :
+  a <> SLASH -> a <> PLUS -> a <> HASH -> b <> SLASH -> b <> PLUS -> b <> HASH ->
+  renaming (swap_chars a b).
+Proof.
+  intros A1 A2 A3 B1 B2 B3.
+  assert (Hfix : forall c, c <> a -> c <> b -> forall x, swap_chars a b x = c <-> x = c).
+  { intros c Ca Cb x. unfold swap_chars.
+    destruct (N.eqb x a) eqn:Ea; [apply N.eqb_eq in Ea; subst x; split; congruence|].
+    destruct (N.eqb x b) eqn:Eb; [apply N.eqb_eq in Eb; subst x; split; congruence|]. tauto. }
+  constructor.
+  - intros x y. unfold swap_chars.
+    destruct (N.eqb x a) eqn:Exa; destruct (N.eqb y a) eqn:Eya;
+    destruct (N.eqb x b) eqn:Exb; destruct (N.eqb y b) eqn:Eyb;
+    rewrite ?N.eqb_eq, ?N.eqb_neq in *; congruence.
+  - apply Hfix; congruence.
+  - apply Hfix; congruence.
+  - apply Hfix; congruence.
+Qed.
+
+Definition dollar_a : N -> N := swap_chars DOLLAR 97.
+
+Lemma dollar_a_renaming : renaming dollar_a.
+Proof. apply swap_renaming; discriminate. Qed.
+
+(* '$' and 'a' are interchangeable: acceptance and matching are the same after exchanging them
+   everywhere in the filter and in the topic *)
+Theorem dollar_ordinary : forall s topic,
+  match new_topic_filter s, new_topic_filter (map dollar_a s) with
+  | Some tf, Some tf' => filter_match tf' (map dollar_a topic) = filter_match tf topic
+  | None, None => True
+  | _, _ => False
+  end.
+Proof.
+  intros s topic. rewrite (new_topic_filter_rename _ dollar_a_renaming).
+  destruct (new_topic_filter s) as [tf|]; cbn [option_map]; [|exact I].
+  apply filter_match_rename. exact dollar_a_renaming.
+Qed.
+
+(* a level matched by '+' may be anything, in particular start with '$' — at every position *)
+Lemma plus_level_any f x ts : tf_match ([PLUS] :: f) (x :: ts) = tf_match f ts.
+Proof. reflexivity. Qed.
+
+Lemma matches_plus_dollar f x ts : matches f ts -> matches ([PLUS] :: f) ((DOLLAR :: x) :: ts).
+Proof. apply M_plus. Qed.
+
+(* a literal level is matched by itself whatever it contains, if it is not a wildcard *)
+Lemma literal_level_self l f ts : l <> [HASH] -> tf_match (l :: f) (l :: ts) = tf_match f ts.
+Proof.
+  intros H. cbn [tf_match]. apply str_eqb_neq in H. rewrite H, str_eqb_refl.
+  cbn [negb andb]. rewrite andb_false_r. reflexivity.
+Qed.
+
+(* topics STARTING with '$' (outside the property): the model, like filter.go, has no 4.7.2 rule *)
+Lemma dollar_first_hash t : filter_match [[HASH]] (DOLLAR :: t) = true.
+Proof. reflexivity. Qed.
+
+Lemma dollar_first_plus f t : exists l ls, split (DOLLAR :: t) = (DOLLAR :: l) :: ls /\
+  filter_match ([PLUS] :: f) (DOLLAR :: t) = tf_match f ls.
+Proof.
+  destruct (split_cons_noslash DOLLAR t) as (l & ls & E1 & E2); [discriminate|].
+  exists l, ls. split; [exact E2|]. unfold filter_match. rewrite E2. reflexivity.
+Qed.
+
+Example ex_plus_dollar_inner : filter_matches_topic [97; SLASH; PLUS] [97; SLASH; DOLLAR; 120].
+Proof. eapply filter_match_iff_spec; reflexivity. Qed.
+Example ex_plus_dollar_middle :
+  filter_matches_topic [100; SLASH; PLUS; SLASH; 115] [100; SLASH; DOLLAR; 97; SLASH; 115].
+Proof. eapply filter_match_iff_spec; reflexivity. Qed.
+Example ex_plus_dollar_after_empty : filter_matches_topic [PLUS; SLASH; PLUS] [SLASH; DOLLAR; 83].
+Proof. eapply filter_match_iff_spec; reflexivity. Qed.
+Example ex_literal_dollar : filter_matches_topic [97; SLASH; DOLLAR; 120] [97; SLASH; DOLLAR; 120].
+Proof. eapply filter_match_iff_spec; reflexivity. Qed.
+Example ex_dollar_filter_valid : valid_filter [DOLLAR; 83; SLASH; HASH].
+Proof. apply accept_iff_valid. eexists; reflexivity. Qed.
+
+
+(* ---------- ServeMux over arbitrary interleavings of Handle and Serve ---------- *)
+
+Lemma mux_of_snoc regs r : mux_of (regs ++ [r]) = mux_handle (mux_of regs) r.
+Proof. unfold mux_of. rewrite fold_left_app. reflexivity. Qed.
+
+Lemma muxes_run_length st ops : length (muxes_run st ops) = length ops.
+Proof.
+  revert st; induction ops as [|[i f h|i t] ops IH]; intros st; cbn [muxes_run length];
+    [reflexivity | rewrite IH; reflexivity | rewrite IH; reflexivity].
+Qed.
+
+Lemma is_some_valid f : is_some (new_topic_filter f) = true <-> valid_filter f.
+Proof.
+  rewrite <- accept_iff_valid. destruct (new_topic_filter f) as [tf|]; cbn [is_some]; split.
+  - intros _. eexists; reflexivity.
+  - reflexivity.
+  - discriminate.
+  - intros [tf H]; discriminate.
+Qed.
+
+(* the invariant: instance j holds exactly the (accepted) registrations R j made on it so far *)
+Lemma muxes_run_spec_gen ops : forall (st : muxes) (R : nat -> list (str * nat)),
+  (forall j, st j = mux_of (R j)) ->
+  forall k, (k < length ops)%nat ->
+  exists e, nth_error (muxes_run st ops) k = Some e /\
+    match nth_error ops k with
+    | None => False
+    | Some (OpHandle _ f _) => exists b, e = EvHandle b /\ (b = true <-> valid_filter f)
+    | Some (OpServe i t) =>
+        exists hs, e = EvServe hs /\ select_rel t (R i ++ regs_on i (firstn k ops)) hs
+    end.
+Proof.
+  induction ops as [|o ops IH]; intros st R Hst k Hk; [cbn [length] in Hk; lia|].
+  destruct k as [|k].
+  - destruct o as [i f h|i t]; cbn [muxes_run nth_error firstn regs_on].
+    + eexists; split; [reflexivity|]. eexists; split; [reflexivity|]. apply is_some_valid.
+    + eexists; split; [reflexivity|]. eexists; split; [reflexivity|].
+      rewrite app_nil_r, Hst. apply mux_dispatch.
+  - cbn [length] in Hk. assert (Hk' : (k < length ops)%nat) by lia.
+    destruct o as [i f h|i t]; cbn [muxes_run nth_error firstn regs_on].
+    + (* Handle on instance i: R i grows by (f,h) *)
+      set (R' := fun j => if Nat.eqb j i then R j ++ [(f, h)] else R j).
+      destruct (IH (muxes_upd st i (mux_handle (st i) (f, h))) R') with (k := k) as (e & He & Hspec);
+        [ | exact Hk' | ].
+      * intros j. unfold muxes_upd, R'. destruct (Nat.eqb j i) eqn:E; [|apply Hst].
+        apply Nat.eqb_eq in E. subst j. rewrite mux_of_snoc, Hst. reflexivity.
+      * exists e; split; [exact He|].
+        destruct (nth_error ops k) as [[i2 f2 h2|i2 t2]|]; [exact Hspec | | exact Hspec].
+        destruct Hspec as (hs & -> & Hsel). exists hs; split; [reflexivity|].
+        unfold R' in Hsel. rewrite (Nat.eqb_sym i i2).
+        destruct (Nat.eqb i2 i); [rewrite <- app_assoc in Hsel|]; exact Hsel.
+    + destruct (IH st R Hst k Hk') as (e & He & Hspec). exists e; split; [exact He|]. exact Hspec.
+Qed.
+
+Theorem muxes_run_spec ops k : (k < length ops)%nat ->
+  exists e, nth_error (muxes_run muxes_empty ops) k = Some e /\ op_spec ops k e.
+Proof.
+  intros Hk. destruct (muxes_run_spec_gen ops muxes_empty (fun _ => [])) with (k := k) as (e & He & H);
+    [intros j; reflexivity | exact Hk | ].
+  exists e; split; [exact He|]. unfold op_spec.
+  destruct (nth_error ops k) as [[i f h|i t]|]; exact H.
+Qed.
+
+(* [op_spec] determines the event: "exactly those handlers, in that order" *)
+Theorem op_spec_functional ops k e1 e2 : op_spec ops k e1 -> op_spec ops k e2 -> e1 = e2.
+Proof.
+  unfold op_spec. destruct (nth_error ops k) as [[i f h|i t]|]; [ | | intros []].
+  - intros (b1 & -> & H1) (b2 & -> & H2). f_equal.
+    destruct b1, b2; try reflexivity.
+    + symmetry. apply H2. apply H1. reflexivity.
+    + apply H1. apply H2. reflexivity.
+  - intros (h1 & -> & H1) (h2 & -> & H2). f_equal. eapply select_rel_functional; eassumption.
+Qed.
+
+(* the scenario of a memoising Serve: Serve(T), Handle(F matching T), Serve(T) — the handler
+   registered in between must be invoked by the second Serve, and only by it *)
+Example ex_handle_after_serve :
+  muxes_run muxes_empty [OpServe 0 [97]; OpHandle 0 [PLUS] 1; OpServe 0 [97]; OpServe 1 [97]]
+  = [EvServe []; EvHandle true; EvServe [1%nat]; EvServe []].
+Proof. reflexivity. Qed.
+
+(* the two clauses separately, as the property words them *)
+Corollary muxes_serve_spec ops k i t : nth_error ops k = Some (OpServe i t) ->
+  exists hs, nth_error (muxes_run muxes_empty ops) k = Some (EvServe hs) /\
+             select_rel t (regs_on i (firstn k ops)) hs.
+Proof.
+  intros Hn. assert (Hk : (k < length ops)%nat) by (apply nth_error_Some; congruence).
+  destruct (muxes_run_spec ops k Hk) as (e & He & Hs). unfold op_spec in Hs. rewrite Hn in Hs.
+  destruct Hs as (hs & -> & Hsel). exists hs; split; assumption.
+Qed.
+
+Corollary muxes_handle_spec ops k i f h : nth_error ops k = Some (OpHandle i f h) ->
+  exists b, nth_error (muxes_run muxes_empty ops) k = Some (EvHandle b) /\ (b = true <-> valid_filter f).
+Proof.
+  intros Hn. assert (Hk : (k < length ops)%nat) by (apply nth_error_Some; congruence).
+  destruct (muxes_run_spec ops k Hk) as (e & He & Hs). unfold op_spec in Hs. rewrite Hn in Hs.
+  destruct Hs as (b & -> & Hb). exists b; split; assumption.
+Qed.
+
+(* the executable predicate used on observed histories decides [op_spec] *)
+Theorem op_expected_spec ops k e : op_expected ops k = Some e <-> op_spec ops k e.
+Proof.
+  unfold op_expected, op_spec. destruct (nth_error ops k) as [[i f h|i t]|].
+  - split.
+    + intros H; injection H as <-. eexists; split; [reflexivity|apply is_some_valid].
+    + intros (b & -> & Hb). do 2 f_equal.
+      destruct b, (is_some (new_topic_filter f)) eqn:E; try reflexivity.
+      * assert (H : valid_filter f) by (apply Hb; reflexivity). apply is_some_valid in H. congruence.
+      * apply is_some_valid in E. apply Hb in E. discriminate.
+  - split.
+    + intros H; injection H as <-. eexists; split; [reflexivity|apply mux_dispatch].
+    + intros (hs & -> & Hsel). do 2 f_equal. eapply select_rel_functional; [apply mux_dispatch|exact Hsel].
+  - split; [discriminate|intros []].
+Qed.
+
+(* the level standing under a '+' has no influence on the result, at whatever depth the '+' is:
+   replacing it (say "ax" by "$x") never changes whether the topic is matched *)
+Theorem plus_level_irrelevant : forall pre post tpre x y tpost, length pre = length tpre ->
+  tf_match (pre ++ [PLUS] :: post) (tpre ++ x :: tpost) = tf_match (pre ++ [PLUS] :: post) (tpre ++ y :: tpost).
+Proof.
+  induction pre as [|p pre IH]; intros post tpre x y tpost Hlen.
+  - destruct tpre; [|discriminate]. reflexivity.
+  - destruct tpre as [|t tpre]; [discriminate|]. cbn [length] in Hlen. injection Hlen as Hlen.
+    cbn [app tf_match]. destruct (str_eqb p [HASH]); [reflexivity|].
+    destruct (negb (str_eqb p [PLUS]) && negb (str_eqb p t)); [reflexivity|].
+    apply IH; exact Hlen.
+Qed.
